@@ -267,6 +267,9 @@ pub struct JaxNoise {
     pub isa_modifier: bool,
     /// blank lines inside phenotype.hpoa
     pub blank_rows: bool,
+    /// hp.obo without a header block (the release version is then 0000-00-00; the facts
+    /// of such a case carry version (0,0,0))
+    pub no_header: bool,
 }
 
 const TAG_POOL: [&str; 8] = [
@@ -296,12 +299,14 @@ pub struct JaxFiles {
 /// be expressed and must not be present in `f`).
 pub fn render_jax(f: &Facts, noise: &JaxNoise) -> JaxFiles {
     let mut obo = String::new();
-    obo.push_str("format-version: 1.2\n");
-    obo.push_str(&format!(
-        "data-version: hp/releases/{:04}-{:02}-{:02}\n",
-        f.version.0, f.version.1, f.version.2
-    ));
-    obo.push_str("saved-by: verif\nontology: hp\n");
+    if !noise.no_header {
+        obo.push_str("format-version: 1.2\n");
+        obo.push_str(&format!(
+            "data-version: hp/releases/{:04}-{:02}-{:02}\n",
+            f.version.0, f.version.1, f.version.2
+        ));
+        obo.push_str("saved-by: verif\nontology: hp\n");
+    }
     let mut tag_i = 0usize;
     let mut typedefs = noise.typedefs as usize;
     for (pos, t) in f.terms.iter().enumerate() {
@@ -355,6 +360,10 @@ pub fn render_jax(f: &Facts, noise: &JaxNoise) -> JaxFiles {
         obo.push_str("\n[Typedef]\nid: has_part\nname: has part\n");
     }
 
+    if noise.no_header {
+        // the file starts directly with the first stanza
+        obo = obo.trim_start_matches('\n').to_string();
+    }
     let mut hpoa = String::new();
     hpoa.push_str("#description: \"HPO annotations for rare diseases\"\n#version: 2024-01-01\n");
     hpoa.push_str("database_id\tdisease_name\tqualifier\thpo_id\treference\tevidence\tonset\tfrequency\tsex\tmodifier\taspect\tbiocuration\n");
